@@ -62,7 +62,7 @@ def validate(ck, sessions, part, timeout=3000):
             names += json.dumps(want).count('"t": "name"')
             d = first_diff(want, o["rast"])
             if d:
-                viol.append(("name resolution differs from static scoping: statement %d (%s) at %s: specified %s, the rewriter gives %s" % (
+                viol.append(("the tree the front end hands to the compiler differs from the written statement resolved by static scoping: statement %d (%s) at %s: specified %s, the rewriter gives %s" % (
                     i + 1, sess.item_text(it).replace("\n", " ; ")[:120], d[0], json.dumps(d[1])[:120], json.dumps(d[2])[:120]), {"session": s, "item": i + 1, "scope_diff": list(d)}))
                 break
     # binding self-test: a corrupted slot in a dumped tree must be noticed by the comparison
